@@ -81,7 +81,10 @@ OnQEnd ==
            \* failed) to an actor that is still running at quiescence (never terminated, not a zombie) was dead-lettered
            wrongly == {p \in dlTo : /\ p[2] \in DOMAIN states /\ states[p[2]][1] = "running" /\ p[2] \notin zombies
                                      /\ p[1] \in DOMAIN tellAt /\ firstFail > 0 /\ tellAt[p[1]] < firstFail}
-       IN bad' = IF stuck # {} THEN Flag("NobodyStaysPaused")
+           \* a zombie is an actor whose OWN restart hook failed; the failure of a sibling's hook is not a reason
+           unjust == {a \in DOMAIN states : states[a][1] = "zombie" /\ a \notin zombies}
+       IN bad' = IF unjust # {} THEN Flag("ZombieOnlyAfterItsOwnHookFailed")
+                  ELSE IF stuck # {} THEN Flag("NobodyStaysPaused")
                   ELSE IF wrongly # {} THEN Flag("QueuedMailSurvivesRestartOrResume")
                   ELSE IF half # {} THEN Flag("NobodyHalfStopped")
                   ELSE IF mail # {} THEN Flag("QueuedMailSurvives")
